@@ -44,6 +44,8 @@ ASSUMPTIONS = [
     'no foreign key sits inside the range of the prefix (prefix_clean): ordinary numeric keys in (0, 999999999999999) and text keys inside '
     '(p-000000000000000, p-999999999999999) are queue members by design',
     'value files of queue rows are present and pairwise distinct (qinv); file bookkeeping is the subject of C08',
+    'expired-run family: the two twin queues of one history have unrelated prefixes (neither extends the other by "-"), so "same content" is '
+    'decided from the pushes alone; the family is checked by the monitors only (the model is compared on the random and fixed histories)',
 ]
 
 SENT = seqdrv.SENT
@@ -315,9 +317,9 @@ def gen_history(ctx, rng, n, cull_limit, policy, prefixes=None, drain=True):
     return cfg, g.objs, hist, prefixes
 
 
-def run_history(ctx, cfg, objs, hist):
+def run_history(ctx, cfg, objs, hist, observe=1):
     """Returns (runner, trace or None, monitor, error)."""
-    r = QRunner(ctx, cfg)
+    r = QRunner(ctx, cfg, observe_every=observe)
     r.objs = objs
     mon = Monitor(objs)
     main = threading.current_thread() is threading.main_thread()
@@ -353,23 +355,22 @@ def run_history(ctx, cfg, objs, hist):
     return r, tr, mon, None
 
 
-def shrink(ctx, cfg, objs, hist, sig):
-    """delete calls while the same signature is still flagged"""
+def shrink(ctx, cfg, objs, hist, sig, viol_of=None, budget=50):
+    """delete calls while the same signature is still flagged; viol_of(history) -> [(sig, desc, call index)]"""
     cur = list(hist)
+    if viol_of is None:
+        def viol_of(h):
+            return run_history(ctx, cfg, objs, h)[2].viol
     if sig == 'op_hang':
-        _, _, m, _ = run_history(ctx, cfg, objs, cur)
-        hits = [i for s, _, i in m.viol if s == sig]
+        hits = [i for s, _, i in viol_of(cur) if s == sig]
         return cur[:hits[0] + 1] if hits else cur
 
     def bad(h):
-        _, _, m, _ = run_history(ctx, cfg, objs, h)
-        return any(s == sig for s, _, _ in m.viol)
+        return any(s == sig for s, _, _ in viol_of(h))
     # cut after the first hit
-    _, _, m, _ = run_history(ctx, cfg, objs, cur)
-    hits = [i for s, _, i in m.viol if s == sig]
+    hits = [i for s, _, i in viol_of(cur) if s == sig]
     if hits:
         cur = cur[:hits[0] + 1]
-    budget = 50
     if len(cur) > 40:       # first halve
         for _ in range(6):
             half = cur[len(cur) // 2:]
@@ -452,6 +453,336 @@ def sequential(ctx, res, nhist, length, correspond=True, stats=None):
                 'model/Cache.v and the implementation differ at call %d (%s %r): implementation returned %s'
                 % (m, rec['item']['op'], rec['item']['args'], repr(rec['res'])[:200]), case, 'correspondence'))
     return stats
+
+
+# ---------------------------------------------------------------------------
+# (a') runs of expired heads: a consumer that was away longer than the items' time to live finds n expired, not yet removed
+# items at the side it pulls from, and live items behind them.  The property text makes no exception for them: items are
+# delivered in queue order and every pushed (live) item is delivered, so pull must hand out the first live item however many
+# expired ones precede it; the empty-queue default is allowed only when no live item is queued under that prefix; and peek
+# returns what the next pull from that side would return, so peek and pull applied to the same content must agree.
+
+
+class RunMonitor:
+    """Ledger written from the property text alone: what push returned, what pull removed, who is live at `now`."""
+
+    def __init__(self, objs):
+        self.objs = objs
+        self.q = {}             # prefix -> list of dicts, front first
+        self.npush = {}
+        self.prev = None        # the previous call, if it was a peek: (index, prefix, side, now, res, live content, position)
+        self.viol = []
+        self.stats = {'takes': 0, 'takes_behind_expired_run': 0, 'longest_expired_run_passed': 0, 'defaults_on_empty': 0,
+                      'peek_pull_pairs_same_queue': 0, 'peek_pull_pairs_twin_queue': 0}
+
+    def flag(self, sig, desc, i):
+        self.viol.append((sig, desc, i))
+
+    @staticmethod
+    def alive(e, now):
+        return e['exp'] is None or now < e['exp']
+
+    def view(self, prefix, side, now):
+        """(live items in delivery order of that side, number of expired items queued before the first live one)"""
+        l = self.q.get(prefix, [])
+        seq = l if side == 'front' else l[::-1]
+        live = [e for e in seq if self.alive(e, now)]
+        ahead = 0
+        for e in seq:
+            if self.alive(e, now):
+                break
+            ahead += 1
+        return live, (ahead if live else len(seq))
+
+    def step(self, i, item, res):
+        op, a, now = item['op'], item['args'], item['now']
+        prev, self.prev = self.prev, None
+        if isinstance(res, tuple) and len(res) == 2 and res[0] == 'raise':
+            return
+        if op == 'push':
+            prefix, side = a.get('prefix'), a.get('side', 'back')
+            l = self.q.setdefault(prefix, [])
+            # an expired item may have been removed meanwhile and its key given out again
+            l[:] = [e for e in l if not (e['key'] == res and type(e['key']) is type(res) and not self.alive(e, now))]
+            e = {'key': res, 'val': expected_value(self.objs[a['v']]), 'exp': None if a.get('expire') is None else now + a['expire'],
+                 'tag': a.get('tag'), 'ord': self.npush.get(prefix, 0)}
+            self.npush[prefix] = e['ord'] + 1
+            if side == 'back':
+                l.append(e)
+            else:
+                l.insert(0, e)
+        elif op in ('pull', 'peek'):
+            self.take(i, op, a.get('prefix'), a.get('side', 'front'), now, res, prev)
+
+    def find(self, prefix, key, now):
+        hit = None
+        for e in self.q.get(prefix, []):
+            if e['key'] == key and type(e['key']) is type(key):
+                if self.alive(e, now):
+                    return e
+                hit = hit or e
+        return hit
+
+    def take(self, i, op, prefix, side, now, res, prev):
+        live, ahead = self.view(prefix, side, now)
+        self.stats['takes'] += 1
+        content = [(e['val'], e['exp'], e['tag']) for e in live]
+        pos = None
+        if res == 'default':
+            if live:
+                self.flag('%s_empty_with_live_items' % op,
+                          '%s(prefix=%r, side=%s) at now=%r returned the empty-queue default although %d live item(s) are queued under that '
+                          'prefix (next from that side: key %r, value %r) behind %d expired, not yet removed item(s)'
+                          % (op, prefix, side, now, len(live), live[0]['key'], live[0]['val'], ahead), i)
+            else:
+                self.stats['defaults_on_empty'] += 1
+        else:
+            (k, v), et, tag = res
+            e = self.find(prefix, k, now)
+            if e is not None:
+                if e in live:
+                    pos = live.index(e)
+                if pos == 0 and ahead:
+                    self.stats['takes_behind_expired_run'] += 1
+                    self.stats['longest_expired_run_passed'] = max(self.stats['longest_expired_run_passed'], ahead)
+                if op == 'pull':
+                    self.q[prefix].remove(e)
+        if op == 'peek':
+            self.prev = (i, prefix, side, now, res, content, pos)
+            return
+        # pull right after a peek from the same side at the same instant, on the same queue or on a queue with the same content
+        if prev is None or prev[0] != i - 1 or prev[2] != side or prev[3] != now:
+            return
+        _, pprefix, _, _, pres, pcontent, ppos = prev
+        same_queue = pprefix == prefix and type(pprefix) is type(prefix)
+        if not same_queue:
+            if len(pcontent) != len(content) or not all(val.same(x[0], y[0]) and x[1:] == y[1:] for x, y in zip(pcontent, content)):
+                return
+        self.stats['peek_pull_pairs_same_queue' if same_queue else 'peek_pull_pairs_twin_queue'] += 1
+        where = 'the same queue' if same_queue else 'a queue with the same content (prefix %r)' % (prefix,)
+        shown = lambda r: 'the empty-queue default' if r == 'default' else 'key %r, value %r, expire_time %r, tag %r' % (r[0][0], r[0][1], r[1], r[2])  # noqa: E731
+        if (pres == 'default') != (res == 'default'):
+            ok = False
+        elif res == 'default':
+            ok = True
+        else:
+            (pk, pv), pet, ptag = pres
+            (k, v), et, tag = res
+            ok = val.same(pv, v) and pet == et and ptag == tag
+            if same_queue:
+                ok = ok and pk == k and type(pk) is type(k)
+            elif ppos is not None and pos is not None:
+                ok = ok and ppos == pos
+        if not ok:
+            self.flag('pull_disagrees_with_peek',
+                      'peek(prefix=%r, side=%s) at now=%r returned %s; the pull(side=%s) that follows at the same instant on %s returned %s '
+                      '(%d live item(s) queued behind %d expired one(s))'
+                      % (pprefix, side, now, shown(pres), side, where, shown(res), len(content), ahead), i)
+
+
+RUN_T = 1000.0
+TICK = 2 ** -10
+RUN_LENGTHS = [0, 1, 2, 9, 10, 11, 12, 20, 21, 25, 50, 100, 101, 128, 250]
+RUN_PAIRS = [(None, 'a'), ('a', None), ('a', 'b-1'), ('b-1', 'a'), ('', 'b'), ('b', '')]      # (twin peeked first, twin pulled first); unrelated
+RUN_DIMS = {
+    'side': ['front', 'back'],
+    'kind': ['inline', 'file', 'mixed'],
+    'push_mode': ['far', 'near', 'split'],
+    'interleave': [True, False],
+    'cull_limit': [0, 10],
+    'policy': ['none', 'least-recently-stored'],
+    'late': [0, 0, 1, 2],
+    'protocol': ['twin', 'twin', 'pull_only', 'peek_same'],
+    'offset': [0, 0, TICK, 5, 990],
+}
+
+
+def run_shape(shape, n, m, n2, offset):
+    """blocks (count, ttl) in the order seen from the pulled side, and phases (ttl whose last expiry instant is taken, offset, steps)"""
+    if shape == 'EL':         # n expired, m live
+        return [[n, 10], [m, None]], [[10, offset, m + 1]]
+    if shape == 'ELEL':       # a second run shows up once the first live item is gone
+        return [[n, 10], [1, None], [n2, 10], [m, None]], [[10, offset, m + 2]]
+    if shape == 'stagger':    # the n2 + 1 items in the middle are live in the first phase, an expired run in the second
+        return [[n, 10], [n2 + 1, 20], [m, None]], [[10, min(offset, 5), 1], [20, offset, m + 1]]
+    if shape == 'ELE':        # expired runs at both ends, pulled from both sides in turn
+        return [[n, 10], [m, None], [n2, 10]], [[10, offset, m + 2]]
+    raise ValueError(shape)
+
+
+def run_params(seed, quick):
+    """the family: run length x side x prefix pair x value kind x live items behind x the remaining dimensions"""
+    import random
+    rng = random.Random('C10-expired-runs-%d' % seed)
+    out = []
+
+    def rest(j, **fixed):
+        p = {k: v[(j // (1 + ix)) % len(v)] for ix, (k, v) in enumerate(sorted(RUN_DIMS.items()))}
+        p.update(fixed)
+        return p
+    j = 0
+    for n in (10, 11, 25):                          # full cross of the dimensions named in the property's quantifier
+        for side in ('front', 'back'):
+            for pair in RUN_PAIRS[:3]:
+                for kind in ('inline', 'file'):
+                    for m in (1, 3):
+                        out.append(rest(j, shape='EL', n=n, m=m, n2=0, side=side, pair=list(pair), kind=kind))
+                        j += 1
+    for n in RUN_LENGTHS:                           # every run length with the other dimensions drawn at random
+        for _ in range(2 if quick else 5):
+            p = {k: rng.choice(v) for k, v in RUN_DIMS.items()}
+            p.update(shape='EL', n=n, m=rng.choice([0, 1, 1, 2, 3, 5]), n2=0, pair=list(rng.choice(RUN_PAIRS)))
+            out.append(p)
+    for shape in ('ELEL', 'stagger', 'ELE'):
+        for n in (3, 10, 11, 25, 100):
+            for _ in range(1 if quick else 3):
+                p = {k: rng.choice(v) for k, v in RUN_DIMS.items()}
+                p.update(shape=shape, n=n, m=rng.choice([1, 2, 3]), n2=rng.choice([n, 10, 11, 12, 30]), pair=list(rng.choice(RUN_PAIRS)))
+                out.append(p)
+    for _ in range(16 if quick else 120):           # everything at random
+        p = {k: rng.choice(v) for k, v in RUN_DIMS.items()}
+        p.update(shape=rng.choice(['EL', 'ELEL', 'stagger', 'ELE']), n=rng.choice(RUN_LENGTHS[:12] + [rng.randint(0, 60)]),
+                 m=rng.choice([0, 1, 2, 3, 4]), n2=rng.choice(RUN_LENGTHS[:11]), pair=list(rng.choice(RUN_PAIRS)))
+        out.append(p)
+    for p in out:
+        if p['shape'] == 'ELE':
+            p['side'], p['late'] = 'both', 0
+    return out
+
+
+def build_run_history(p):
+    """(cfg, objs, history) of one member of the family; deterministic in p"""
+    cfg = seqdrv.Config(policy=p['policy'], min_file_size=8, cull_limit=p['cull_limit'])
+    objs, index = [], {}
+
+    def ref(o):
+        k = (type(o).__name__, repr(o))
+        if k not in index:
+            index[k] = len(objs)
+            objs.append(o)
+        return index[k]
+
+    def value(j, dead):
+        kind = p['kind'] if p['kind'] != 'mixed' else ('inline', 'file', 'bytes')[j % 3]
+        if kind == 'inline':
+            return (-j - 1 if dead else j) if j % 2 == 0 else ('x%d' if dead else 'i%d') % j
+        if kind == 'file':
+            return ('expired-value-%05d' if dead else 'queued-value-%05d') % j
+        return (b'E' if dead else b'L') * 9 + str(j).encode()
+    A, B = p['pair']
+    queues = [A, B] if p['protocol'] != 'peek_same' else [A]
+    blocks, phases = run_shape(p['shape'], p['n'], p['m'], p['n2'], p['offset'])
+    near = 'back' if p['side'] == 'back' else 'front'
+    far = 'front' if near == 'back' else 'back'
+    items = []
+    for count, ttl in blocks:
+        for _ in range(count):
+            j = len(items)
+            items.append({'v': ref(value(j, ttl is not None)), 'expire': ttl, 'tag': 't1' if j % 4 == 3 else None})
+    if p['push_mode'] == 'far':
+        plan = [(it, far) for it in items]
+    elif p['push_mode'] == 'near':
+        plan = [(it, near) for it in reversed(items)]
+    else:                       # outwards from the middle, extending the queue on both sides in turn
+        plan, lo, hi = [], len(items) // 2 - 1, len(items) // 2
+        while lo >= 0 or hi < len(items):
+            if hi < len(items):
+                plan.append((items[hi], far))
+                hi += 1
+            if lo >= 0:
+                plan.append((items[lo], near))
+                lo -= 1
+    hist, last_exp = [], {}
+
+    def push(q, it, side, now):
+        hist.append({'op': 'push', 'args': {'v': it['v'], 'prefix': q, 'side': side, 'expire': it['expire'], 'tag': it['tag']}, 'now': now})
+        if it['expire'] is not None:
+            last_exp[it['expire']] = max(last_exp.get(it['expire'], 0), now + it['expire'])
+
+    def take(op, q, side, now):
+        hist.append({'op': op, 'args': {'prefix': q, 'side': side}, 'now': now})
+    now = RUN_T
+    if p['interleave']:
+        for it, side in plan:
+            for q in queues:
+                push(q, it, side, now)
+            now += TICK
+    else:
+        for q in queues:
+            for it, side in plan:
+                push(q, it, side, now)
+    nlive = sum(c for c, ttl in blocks if ttl is None)
+    k = 0
+    for pi, (ttl, offset, steps) in enumerate(phases):
+        now = max(now, last_exp.get(ttl, RUN_T + ttl) + offset)
+        if pi == 0:
+            for j in range(p['late']):      # the producer went on while the consumer was away
+                it = {'v': ref(value(len(items) + j, False)), 'expire': None, 'tag': None}
+                for q in queues:
+                    push(q, it, far, now)
+            nlive += p['late']
+        for _ in range(steps):
+            side = near if p['side'] != 'both' else ('front', 'back')[k % 2]
+            P, Q = (A, B) if (k // 2) % 2 == 0 or len(queues) == 1 else (B, A)
+            if p['protocol'] == 'twin':
+                take('peek', P, side, now)
+                take('pull', Q, side, now)
+                take('pull', P, side, now)
+            elif p['protocol'] == 'pull_only':
+                take('pull', P, side, now)
+                take('pull', Q, side, now)
+            else:
+                take('peek', A, side, now)
+                take('pull', A, side, now)
+            k += 1
+    for q in queues:                        # whatever is left is delivered, then the queue is empty
+        for _ in range(nlive + 1):
+            take('pull', q, near, now)
+    return cfg, objs, hist
+
+
+def run_viol(ctx, cfg, objs, hist):
+    """both ledgers over one execution -> (trace, [(sig, desc, call index)], monitors, error)"""
+    r, tr, mon, err = run_history(ctx, cfg, objs, hist, observe=0)
+    rm = RunMonitor(objs)
+    if tr is not None:
+        for i, rec in enumerate(tr.calls):
+            rm.step(i, rec['item'], rec['res'])
+    return tr, rm.viol + mon.viol, (mon, rm), err
+
+
+def expired_runs(ctx, res, stats):
+    params = run_params(ctx.seed, ctx.quick)
+    agg = stats.setdefault('expired_runs', {'histories': 0, 'calls': 0, 'run_lengths': sorted(set(p['n'] for p in params))})
+    seen = set(v.sig for v in res.violations)
+    hangs = 0
+    for p in params:
+        if hangs >= 2:
+            break
+        cfg, objs, hist = build_run_history(p)
+        tr, viol, (mon, rm), err = run_viol(ctx, cfg, objs, hist)
+        hangs += int(isinstance(err, Hang))
+        agg['histories'] += 1
+        agg['calls'] += len(hist)
+        for it in hist:
+            res.count(['run', cfg.cull_limit, cfg.policy, it['op'], sorted(it['args'].items(), key=repr), it['now']], nontrivial=True)
+        for k, v in rm.stats.items():
+            agg[k] = max(agg.get(k, 0), v) if k.startswith('longest') else agg.get(k, 0) + v
+        for k, v in mon.stats.items():
+            stats.setdefault('monitor', {})[k] = stats.setdefault('monitor', {}).get(k, 0) + v
+        for sig in sorted(set(s for s, _, _ in viol)):
+            if sig in seen:
+                continue
+            seen.add(sig)
+            small = shrink(ctx, cfg, objs, hist, sig, viol_of=lambda h: run_viol(ctx, cfg, objs, h)[1], budget=70)
+            desc = ([d for s, d, _ in run_viol(ctx, cfg, objs, small)[1] if s == sig] or [d for s, d, _ in viol if s == sig])[0]
+            case = gen_hist.history_json(objs, small, cfg)
+            case.update({'check': 'expired_run', 'sig': sig, 'family_member': p, 'calls_before_shrinking': len(hist)})
+            res.violations.append(fw.Violation(sig, desc, case))
+        if agg['histories'] == 1 and tr is not None:
+            res.sample({'expired_run_member': p, 'calls': len(hist), 'last_calls': [
+                {'op': c['item']['op'], 'args': {k: (repr(objs[v])[:30] if k == 'v' else v) for k, v in c['item']['args'].items()},
+                 'now': c['item']['now'], 'result': repr(c['res'])[:80]} for c in tr.calls[-6:]]})
 
 
 # ---------------------------------------------------------------------------
@@ -838,11 +1169,23 @@ def run(ctx):
                 'values (min_file_size 8), cull_limit in {0, 10}, policies none / least-recently-stored; every history ends by draining each queue. '
                 'Monitor: per-prefix ledger (order, returned key identifies the item via cache.get, key = neighbouring number, peek = next pull, no '
                 'delivery at/after the expiry instant, no interference).  Every history is also run through model/Cache.v (result + table after '
-                'every call).  Concurrency: 2-4 clients with own Cache objects under the deterministic scheduler, random + all schedule prefixes '
+                'every call).  Runs of expired heads (monitor only, own random stream): a parameterised family of histories in which n expired, '
+                'not yet removed items (n in {0, 1, 2, 9, 10, 11, 12, 20, 21, 25, 50, 100, 101, 128, 250} and random n <= 60) sit at the pulled '
+                'side in front of 0-5 live items, x side front / back / both in turn x twin queues with the same content under the prefix pairs '
+                '(None, a), (a, None), (a, b-1), (b-1, a), ("", b), (b, "") x inline / file-backed / mixed values x pushed from the far side, the '
+                'near side or outwards from the middle x shapes (one run; a second run behind the first live item; a run that expires later; '
+                'runs at both ends) x clock at the exact expiry instant or later x pushes arriving after the expiry x cull_limit 0 / 10; each '
+                'step is peek on one twin, pull on the other, pull on the first (or pulls only, or peek+pull on one queue), then both are '
+                'drained.  A second ledger decides: pull / peek return the empty-queue default only if no live item is queued under the prefix '
+                '(pull_empty_with_live_items, peek_empty_with_live_items), and a pull that directly follows a peek from the same side at the '
+                'same instant on the same queue or on a queue with the same live content returns the same item (pull_disagrees_with_peek); the '
+                'first ledger checks the same histories (order, values, expiry, phantom deliveries).  Concurrency: 2-4 clients with own Cache objects under the deterministic scheduler, random + all schedule prefixes '
                 'of a fixed length; thorough adds free-running processes.  evaluation = one executed call or one scheduled run.')
     stats = {}
     t0 = _time.time()
     fixed_histories(ctx, res, stats)
+    expired_runs(ctx, res, stats)
+    stats['runs_s'] = round(_time.time() - t0, 1)
     if ctx.quick:
         sequential(ctx, res, 110, 60, stats=stats)
         stats['seq_s'] = round(_time.time() - t0, 1)
@@ -859,7 +1202,8 @@ def run(ctx):
         queuecorr.run(ctx, res, 300 if ctx.quick else 3000)
     res.extra.update({'op_histogram': stats.get('ops', {}), 'prefix_histogram': stats.get('prefixes', {}),
                       'monitor_counters': stats.get('monitor', {}), 'concurrency': stats.get('conc', {}), 'soak': stats.get('soak', {}),
-                      'sequential_seconds': stats.get('seq_s')})
+                      'sequential_seconds': stats.get('seq_s'), 'expired_runs': stats.get('expired_runs', {}),
+                      'expired_runs_seconds': stats.get('runs_s')})
     res.witnessed['prefix_extension_leak'] = witness_leak()
     res.witnessed['prefix_extension_collision'] = witness_collision()
     return res
@@ -870,6 +1214,7 @@ def search(ctx, broken):
     res = fw.Result()
     stats = {}
     fixed_histories(ctx, res, stats)
+    expired_runs(ctx, res, stats)
     sequential(ctx, res, 60 if ctx.quick else 200, 60, correspond=False, stats=stats)
     concurrent(ctx, res, 24 if ctx.quick else 120, 6, stats)
     res.witnessed['prefix_extension_leak'] = witness_leak()
@@ -882,9 +1227,14 @@ def replay(payload):
     ctx = fw.Ctx('C10', 'quick', 1)
     try:
         kind = case.get('check')
-        if kind in ('seq', 'correspondence'):
+        if kind in ('seq', 'correspondence', 'expired_run'):
             objs, hist, cfg = gen_hist.history_from_json(case)
-            r, tr, mon, err = run_history(ctx, cfg, objs, hist)
+            r, tr, mon, err = run_history(ctx, cfg, objs, hist, observe=1 if kind == 'correspondence' else 0)
+            if kind == 'expired_run' and tr is not None:
+                rm = RunMonitor(objs)
+                for i, rec in enumerate(tr.calls):
+                    rm.step(i, rec['item'], rec['res'])
+                mon.viol = rm.viol + mon.viol
             if tr is not None:
                 for c in tr.calls:
                     print('  now=%-10r %-6s %-60s -> %s' % (c['item']['now'], c['item']['op'],
